@@ -24,11 +24,11 @@ claim("C07", E1,
       "DESIGN.md §3 C07")
 NOT_APPLICABLE.pop("C07", None)
 
-claim("C14", E1,
+claim("C14", E1 + " + " + E2,
       "Bounded symbolic check of the jitted tabular updates (SARSA, Q-learning composed with its greedy successor action, double "
       "Q-learning, Dyna-Q's q_learning_update, Monte-Carlo update with episodes <= 3) on tables 3x2 / 2x3 / 4x2 with symbolic entries "
       "and symbolic in-range indices: every table entry of the result equals the textbook expression (ite over the visited entry).",
-      REAL + " Dyna-Q's learned model (empirical frequencies) is not yet covered by this check.",
+      REAL + " Dyna-Q's learned model: the real counter_update/model_update symbolically executed (E2) over histories of 3-4 symbolic transitions on 2 states x 2 actions with symbolic rewards, compared with empirical frequencies / mean rewards.",
       "jaxpr -> SMT with symbolic gather/scatter indices as ite chains; per-entry equality obligations",
       "DESIGN.md §3 C14")
 NOT_APPLICABLE.pop("C14", None)
@@ -138,9 +138,9 @@ LOOPNOTE = (E2NOTE + " Environment, action-space sampler, function approximators
 claim("C01", E2,
       "The real train_* code objects (DQN, Nature-DQN, DDQN, PER, DDPG, TD3, TD3+LAP, SAC, TD7, MR.Q, PETS) run on a recording "
       "world in which every step's reward/terminated/truncated is symbolic: for every path (all termination/truncation patterns, "
-      "warm-up lengths, epsilon rolls) each stored transition equals the environment log entry of that step (observation = last "
+      "warm-up lengths, epsilon rolls; also Q-learning, SARSA, double-Q, Monte-Carlo, Dyna-Q, REINFORCE, A2C) each stored transition equals the environment log entry of that step (observation = last "
       "returned / reset observation, action passed to step, reward, successor, flag) and the acting stub saw the current observation.",
-      LOOPNOTE + " On-policy collectors and tabular loops are not covered by this check yet.",
+      LOOPNOTE + " Also covered: the five tabular loops (arguments of every update = that step's log entry, termination flag not truncation), REINFORCE's sample_trajectories with the real EpisodeDataset and A2C's collect_trajectories on a 2-environment vector stub. PPO's collector is not covered.",
       "path-forking symbolic execution of the training-loop code objects against a recording environment (bounded steps)",
       "DESIGN.md §3 C01, §2 F-LOOP")
 NOT_APPLICABLE.pop("C01", None)
@@ -149,7 +149,7 @@ claim("C11", E2,
       "the environment is never stepped after an episode end without reset (asserted inside the environment stub), no update-stub "
       "event before the documented warm-up step, and returned counter = start + executed; for DQN family, DDPG, TD3, TD3+LAP, SAC, "
       "TD7, MR.Q with budgets K in {0..5} and global_step in {0,2}.",
-      LOOPNOTE + " Multi-task schedulers, task selectors, on-policy routines and the rollout helper are not covered by this check yet.",
+      LOOPNOTE + " Also covered: generate_rollout, uniform task sampling and SMT (both stages) with train_st replaced by its contract (per-task totals = executed steps <= budget), RoundRobin / DUCB / DUCBGeneralized selectors (valid ids, strict alternation, initial round-robin, arg-max afterwards). Not covered: the active-MT scheduler, on-policy training loops' budgets.",
       "path-forking symbolic execution of the training-loop code objects (bounded steps), per-path SMT validity of the accounting equations",
       "DESIGN.md §3 C11, §2 F-LOOP")
 NOT_APPLICABLE.pop("C11", None)
